@@ -33,8 +33,31 @@ const REDUCE: [Term; 9] = [
     Term::MaxByKey,
 ];
 const SHORT: [Term; 6] = [Term::Find, Term::First, Term::Any, Term::All, Term::FindIdx, Term::FirstIdx];
-const ALL_SRC: [Src; 6] = [Src::VecOwned, Src::Slice, Src::Range, Src::IterExact, Src::IterUnknown, Src::Deque];
-const OWNING: [Src; 4] = [Src::VecOwned, Src::IterExact, Src::IterUnknown, Src::Deque];
+const ALL_SRC: [Src; 13] = [
+    Src::VecOwned,
+    Src::Slice,
+    Src::Range,
+    Src::IterExact,
+    Src::IterUnknown,
+    Src::Deque,
+    Src::Cloned,
+    Src::List,
+    Src::BTree,
+    Src::DequeRef,
+    Src::Array,
+    Src::ConIterVec,
+    Src::SliceInto,
+];
+const OWNING: [Src; 8] = [
+    Src::VecOwned,
+    Src::IterExact,
+    Src::IterUnknown,
+    Src::Deque,
+    Src::List,
+    Src::BTree,
+    Src::ConIterVec,
+    Src::Cloned,
+];
 const CHUNKS: [usize; 12] = [1, 2, 3, 4, 5, 6, 7, 8, 9, 16, 64, 1000];
 
 fn keep_spec(r: &mut Rng, len: usize, c: usize) -> Keep {
@@ -175,6 +198,7 @@ impl<'s> Gen<'s> {
             18 => r.range(0, 300.min(max_len)),
             _ => r.range(0, max_len),
         };
+        let len = if src == Src::Array { 8 } else { len };
         let nt = r.pick(o.nts);
         let nt = if self.small { nt.min(4) } else { nt };
         let c = r.pick(&CHUNKS);
@@ -220,21 +244,21 @@ impl<'s> Gen<'s> {
 
     pub fn count(&self, prop: &str) -> u64 {
         let (q, t) = match prop {
-            "C01" => (24_000, 300_000),
-            "C02" => (24_000, 300_000),
-            "C03" => (24_000, 300_000),
-            "C04" => (20_000, 240_000),
-            "C05" => (24_000, 300_000),
-            "C06" => (20_000, 240_000),
-            "C07" => (16_000, 200_000),
-            "C08" => (16_000, 160_000),
-            "C09" => (30_000, 400_000),
-            "C10" => (12_000, 120_000),
-            "C11" => (16_000, 200_000),
+            "C01" => (24_000, 400_000),
+            "C02" => (80_000, 1_000_000),
+            "C03" => (70_000, 800_000),
+            "C04" => (50_000, 600_000),
+            "C05" => (40_000, 500_000),
+            "C06" => (80_000, 800_000),
+            "C07" => (60_000, 600_000),
+            "C08" => (60_000, 600_000),
+            "C09" => (200_000, 2_000_000),
+            "C10" => (80_000, 800_000),
+            "C11" => (40_000, 500_000),
             "C12" => (self.c12_space().0, self.c12_space().1),
-            "C13" => (24_000, 300_000),
-            "C14" => (16_000, 200_000),
-            "C15" => (30_000, 500_000),
+            "C13" => (60_000, 600_000),
+            "C14" => (50_000, 600_000),
+            "C15" => (30_000, 600_000),
             "C16" => (self.c16_space(), self.c16_space()),
             _ => (1000, 1000),
         };
@@ -656,11 +680,11 @@ impl<'s> Gen<'s> {
 
     pub fn c12_space(&self) -> (u64, u64) {
         let s = self.c12_singles();
-        (s + 12_000, s + self.c12_pairs())
+        (s + 60_000, s + self.c12_pairs())
     }
 
     fn c12_base(&self, info: &ShapeInfo, r: &mut Rng) -> Case {
-        let len = r.range(0, 9);
+        let len = if info.src == 'A' { 8 } else { r.range(0, 9) };
         Case {
             seed: r.next(),
             src: Src::from_letter(info.src),
@@ -780,7 +804,7 @@ impl<'s> Gen<'s> {
             Term::All,
         ];
         // dense part of the grid is enumerated by index; beyond it, sampled long inputs
-        let len = if idx % 8 == 7 && !self.small {
+        let len = if idx % 32 == 31 && !self.small {
             *[100usize, 255, 256, 257, 1000, 1023, 4096, 4097, 10_000, 65_537, 70_000]
                 .get(r.below(11) as usize)
                 .unwrap_or(&100)
@@ -849,7 +873,7 @@ impl<'s> Gen<'s> {
         let info = self.shapes.get((idx / 6) as usize)?;
         let variant = idx % 6;
         let mut r = Rng::new(idx ^ 0xC16);
-        let len = 12;
+        let len = if info.src == 'A' { 8 } else { 12 };
         let depth = info.shape.len();
         let mut c = Case {
             seed: r.next(),
